@@ -4,9 +4,10 @@ seed 1, /repo HEAD) into seeded/*/meta.json: `caught_by` becomes the list of che
 matrix run (the at-intake observations are kept under `caught_by_at_intake`), `own_check_catches` is recomputed."""
 import json, os, re, sys
 root = os.path.dirname(os.path.dirname(os.path.abspath(__file__)))
-log = sys.argv[1] if len(sys.argv) > 1 else "/tmp/matrix-full.log"
+logs = sys.argv[1:] or ["/tmp/matrix-full.log"]
 cur, res = None, {}
-for line in open(log):
+import itertools
+for line in itertools.chain.from_iterable(open(l) for l in logs):
     line = line.rstrip("\n")
     m = re.match(r"^##### (C\d\d-w\d+)$", line)
     if m:
